@@ -651,6 +651,7 @@ def selftest(ctx, sample_events):
     """binding demonstration: (1) a broken autofill (in-process monkeypatch) and (2) a corrupted recorded
     field must both be flagged by TLC's verdicts."""
     from vc2_conformance.bitstream import vc2_autofill as va
+    from vc2_conformance.bitstream import vc2_fixeddicts as fd
 
     seqs = [
         [
@@ -675,7 +676,7 @@ def selftest(ctx, sample_events):
             for du in sequence.get("data_units", []):
                 pc = du.get("parse_info", {}).get("parse_code")
                 if pc in (200, 232):
-                    h = du.setdefault("picture_parse", {}).setdefault("picture_header", {})
+                    h = du.setdefault("picture_parse", fd.PictureParse()).setdefault("picture_header", fd.PictureHeader())
                     if h.get("picture_number", va.AUTO) is va.AUTO:
                         h["picture_number"] = last + 1
                     last = h["picture_number"]
